@@ -154,6 +154,10 @@ func (c *ServerCookie) EncryptWithNonce(key []byte, keyid int) (EncryptedServerC
 
 // Decrypt decrypts the EncryptedServerCookie using the provided key and returns a ServerCookie.
 func (c *EncryptedServerCookie) Decrypt(key []byte) (ServerCookie, error) {
+	if len(c.Nonce) != 16 {
+		// the AEAD panics on a nonce of any other length
+		return ServerCookie{}, errUnexpectedCookieData
+	}
 	aessiv, err := miscreant.NewAEAD("AES-CMAC-SIV", key, 16)
 	if err != nil {
 		return ServerCookie{}, err
